@@ -24,7 +24,21 @@
   graphs; because – fact `storedRunErrors = []` – no such object is kept in a package-level
   variable or struct field, every failing run allocates its own, hence for any number of failing
   runs of any compiled objects of the process and every interleaving, the error a run returned
-  reads exactly what the run reports alone (its own nesting path), for ever.  What is NOT proved: atomicity of the steps, i.e. data-race freedom
+  reads exactly what the run reports alone (its own nesting path), for ever.  For the CALLBACK
+  HANDLERS (section "callback handlers" below, model EinoV/Model/C09Cb.lean on the same slice heap):
+  a `WithCallbacks(hs...)` option keeps the caller's slice, the handler list of a run is collected
+  from the options of the call and – when the context has no manager yet – installed as it is;
+  because the collection starts from nil and only appends (facts `graphHandlersCollectCopies`,
+  `nodeHandlersCollectCopies`) and `AppendHandlers` copies what it inherits (fact
+  `appendHandlersCopies`), for any number of concurrent calls sharing Option values and parent
+  contexts with any spare capacity and every interleaving, every unit of a run fires its callbacks
+  on exactly the handler list in force for ITS call.  For MANY RUNS IN FLIGHT AT ONCE (section
+  "many runs in flight" below, model EinoV/Model/C09Flight.lean): the tool calls of a message are
+  started side by side, a tool may itself run a compiled object with a tools node, and – fact
+  `runPathSharedSync = []` – no package-level channel / lock / semaphore is used on the run path,
+  so for ANY number of concurrent runs with any numbers of tool calls and inner tool calls, held
+  together at a barrier, no reachable state is stuck and every reachable state completes.
+  What is NOT proved: atomicity of the steps, i.e. data-race freedom
   in the Go memory model – that clause is observed only (harness built with -race, child
   process, any race report is a violation).  The write-set is a syntactic
   over-approximation over a fixed package list, trusted as such.
@@ -35,6 +49,10 @@ import EinoV.Proofs.C09
 import EinoV.Proofs.C09Opt
 import EinoV.Model.C09Err
 import EinoV.Proofs.C09Err
+import EinoV.Model.C09Cb
+import EinoV.Proofs.C09Cb
+import EinoV.Model.C09Flight
+import EinoV.Proofs.C09Flight
 import EinoV.Gen.FactsC09
 import EinoV.Expected.C09
 
@@ -328,6 +346,352 @@ theorem memoised_tool_list_interferes :
   decide
 
 end CallOptions
+
+/-! ## callback handlers (Go slice semantics)
+
+"Runs do not share … callback context."  The handler list of a run is a slice; a
+`compose.WithCallbacks(hs...)` option keeps the caller's slice `hs`, and a parent context keeps the
+slice given to `callbacks.InitCallbacks`.  Concurrent runs that pass the same Option value / derive
+their context from the same parent hold windows into the same arrays.  The theorems say what the
+list a unit of a run reads is a window into. -/
+
+section CallbackHandlers
+
+/-- the three facts of the code as it is now -/
+def repoCbFacts : Cb.Facts :=
+  ⟨FactsC09.graphHandlersCollectCopies, FactsC09.nodeHandlersCollectCopies, FactsC09.appendHandlersCopies⟩
+
+/-- **handler_lists_built_by_copy.** In `initGraphCallbacks` and in `initNodeCallbacks` the list
+    handed to `AppendHandlers` starts nil and every assignment to it is `cbs = append(cbs, …)` (its
+    array is allocated by the run, it is never an option's own slice); `AppendHandlers` appends to a
+    copy of the inherited list, never to the inherited slice. -/
+theorem handler_lists_built_by_copy :
+    FactsC09.graphHandlersCollectCopies = true ∧ FactsC09.nodeHandlersCollectCopies = true ∧
+    FactsC09.appendHandlersCopies = true := by decide
+
+theorem facts_match_callbacks : repoCbFacts = Expected.C09.cbFacts := by decide
+
+theorem repo_cb_facts : repoCbFacts = ⟨true, true, true⟩ := by decide
+
+/-- **Every unit of a run fires its callbacks on the handler list of its own call** – for the code
+    as it is (the three facts from /repo), any caller memory `h0`, any number of concurrent calls
+    (each: the handler list of its context and its `WithCallbacks` options, graph-wide or designated
+    to any node path; several calls may hold windows into the same caller arrays – a shared Option
+    value, a shared parent context – with any spare capacity), any set of (call, unit) threads and
+    EVERY interleaving of their collect / install / read steps: whatever unit `p` of call `i` reads
+    when it fires a callback is `Cb.inForce h0 inh gs p` – the context's list, then, level by level
+    along the node path of the unit, the handlers of the options of call `i` collected there, in
+    call order, as the caller handed them over.  It is a function of the call's own context and
+    options only. -/
+theorem run_handlers_are_own (h0 : C10.Heap) (calls : List Cb.Call)
+    (threads : List (Nat × Opt.Path)) (sched : List Nat) (wf : Cb.CallsWF h0 calls)
+    (t i : Nat) (p : Opt.Path) (c : Cb.Call) (r : List C10.Hd)
+    (ht : threads[t]? = some (i, p)) (hc : calls[i]? = some c)
+    (hs : ((Cb.exec repoCbFacts (Cb.progOf calls threads) sched
+              (Cb.St.init h0 (Cb.progOf calls threads))).th t).seen = some r) :
+    r = Cb.inForce h0 c.inh c.gs p := by
+  rw [repo_cb_facts] at hs
+  have wfp := Cb.wf_progOf wf threads
+  have inv := Cb.inv_exec wfp sched _ (Cb.inv_init wfp)
+  have hp : (Cb.progOf calls threads)[t]? = some (Cb.threadOf c p) := by
+    simp [Cb.progOf, ht, List.getD_eq_getElem?_getD, hc]
+  rw [Cb.inForce_eq]
+  exact inv.sn t _ r hp hs
+
+/-- **The caller's handler arrays are never written** by any run: neither the slice of a
+    `WithCallbacks` option nor the slice of a parent context, spare capacity included. -/
+theorem caller_handler_arrays_untouched (h0 : C10.Heap) (calls : List Cb.Call)
+    (threads : List (Nat × Opt.Path)) (sched : List Nat) (wf : Cb.CallsWF h0 calls)
+    (a : Nat) (ha : a < h0.length) :
+    (Cb.exec repoCbFacts (Cb.progOf calls threads) sched
+        (Cb.St.init h0 (Cb.progOf calls threads))).heap[a]? = h0[a]? := by
+  rw [repo_cb_facts]
+  have wfp := Cb.wf_progOf wf threads
+  exact (Cb.inv_exec wfp sched _ (Cb.inv_init wfp)).pre a ha
+
+/-- **Runs do not share callback context**: the same call (same context list, same options)
+    observed in two different worlds – other concurrent calls, other threads, another schedule –
+    fires the callbacks of unit `p` on the same handlers. -/
+theorem handlers_independent_of_other_runs (h0 : C10.Heap)
+    (calls calls' : List Cb.Call) (threads threads' : List (Nat × Opt.Path))
+    (sched sched' : List Nat) (wf : Cb.CallsWF h0 calls) (wf' : Cb.CallsWF h0 calls')
+    (t t' i i' : Nat) (p : Opt.Path) (c : Cb.Call) (r r' : List C10.Hd)
+    (ht : threads[t]? = some (i, p)) (ht' : threads'[t']? = some (i', p))
+    (hc : calls[i]? = some c) (hc' : calls'[i']? = some c)
+    (hs : ((Cb.exec repoCbFacts (Cb.progOf calls threads) sched
+              (Cb.St.init h0 (Cb.progOf calls threads))).th t).seen = some r)
+    (hs' : ((Cb.exec repoCbFacts (Cb.progOf calls' threads') sched'
+              (Cb.St.init h0 (Cb.progOf calls' threads'))).th t').seen = some r') :
+    r = r' := by
+  rw [run_handlers_are_own h0 calls threads sched wf t i p c r ht hc hs,
+    run_handlers_are_own h0 calls' threads' sched' wf' t' i' p c r' ht' hc' hs']
+
+/-- non-vacuity of the three theorems above: a thread that is scheduled once per instruction and
+    once more has read (whatever the facts are) -/
+theorem handlers_read_when_scheduled (F : Cb.Facts) (prog : List Cb.Thread) (t : Nat)
+    (th : Cb.Thread) (hp : prog[t]? = some th) (sched : List Nat) :
+    ∀ st : Cb.St, (st.th t).pc ≤ th.code.length → th.code.length + 1 ≤ (st.th t).pc + sched.count t →
+      ((Cb.exec F prog sched st).th t).seen.isSome = true := by
+  have mono_step : ∀ (st : Cb.St) (j : Nat), (st.th t).seen.isSome = true →
+      ((Cb.step F prog st j).th t).seen.isSome = true := by
+    intro st j h
+    unfold Cb.step
+    split
+    · exact h
+    · dsimp only
+      split
+      · by_cases e : t = j
+        · subst e; simpa [Cb.upd] using h
+        · simpa [Cb.upd, e] using h
+      · by_cases e : t = j
+        · subst e; simpa [Cb.upd] using h
+        · simpa [Cb.upd, e] using h
+      · split
+        · exact h
+        · by_cases e : t = j
+          · subst e; simp [Cb.upd]
+          · simpa [Cb.upd, e] using h
+  have mono : ∀ (s : List Nat) (st : Cb.St), (st.th t).seen.isSome = true →
+      ((Cb.exec F prog s st).th t).seen.isSome = true := by
+    intro s
+    induction s with
+    | nil => intro st h; exact h
+    | cons j rest ih => intro st h; exact ih _ (mono_step st j h)
+  induction sched with
+  | nil => intro st h1 h2; simp at h2; omega
+  | cons j rest ih =>
+    intro st h1 h2
+    simp only [Cb.exec]
+    by_cases e : j = t
+    · subst e
+      have hcnt : (j :: rest).count j = rest.count j + 1 := by simp
+      rw [hcnt] at h2
+      by_cases hlt : (st.th j).pc < th.code.length
+      · have hg : th.code[(st.th j).pc]? = some th.code[(st.th j).pc] := by simp [hlt]
+        cases hi : th.code[(st.th j).pc] with
+        | collect top g =>
+          rw [hi] at hg
+          apply ih
+          · simp [Cb.step, hp, hg, Cb.upd]; omega
+          · simp [Cb.step, hp, hg, Cb.upd]; omega
+        | install =>
+          rw [hi] at hg
+          apply ih
+          · simp [Cb.step, hp, hg, Cb.upd]; omega
+          · simp [Cb.step, hp, hg, Cb.upd]; omega
+      · have hg : th.code[(st.th j).pc]? = none := by simp; omega
+        apply mono
+        by_cases hsn : (st.th j).seen.isSome = true
+        · simp [Cb.step, hp, hg, hsn]
+        · simp [Cb.step, hp, hg, hsn, Cb.upd]
+    · have hcnt : (j :: rest).count t = rest.count t := by
+        simp [e]
+      rw [hcnt] at h2
+      have hsame : (Cb.step F prog st j).th t = st.th t := by
+        unfold Cb.step
+        split
+        · rfl
+        · dsimp only
+          split
+          · simp [Cb.upd, Ne.symm e]
+          · simp [Cb.upd, Ne.symm e]
+          · split
+            · rfl
+            · simp [Cb.upd, Ne.symm e]
+      apply ih
+      · rw [hsame]; exact h1
+      · rw [hsame]; exact h2
+
+/-- a shared `WithCallbacks(common...)` Option value whose handler slice has spare capacity (2
+    handlers in an array of 4), and two calls that each add one graph-wide handler of their own;
+    the context of the calls carries no callback manager -/
+def cbHazardHeap : C10.Heap :=
+  [[⟨1, none⟩, ⟨2, none⟩, default, default], [⟨10, none⟩], [⟨20, none⟩]]
+def cbHazardCalls : List Cb.Call :=
+  [⟨C10.Slice.nil, [⟨false, [], ⟨0, 0, 2, 4⟩⟩, ⟨false, [], ⟨1, 0, 1, 1⟩⟩]⟩,
+   ⟨C10.Slice.nil, [⟨false, [], ⟨0, 0, 2, 4⟩⟩, ⟨false, [], ⟨2, 0, 1, 1⟩⟩]⟩]
+/-- one thread per call, building the handler list of the called graph itself -/
+def cbHazardProg : List Cb.Thread := Cb.progOf cbHazardCalls [(0, []), (1, [])]
+
+/-- the threads' code: collect the shared list, collect the own list, install -/
+example : cbHazardProg =
+    [⟨C10.Slice.nil, [.collect true ⟨0, 0, 2, 4⟩, .collect true ⟨1, 0, 1, 1⟩, .install]⟩,
+     ⟨C10.Slice.nil, [.collect true ⟨0, 0, 2, 4⟩, .collect true ⟨2, 0, 1, 1⟩, .install]⟩] := by decide
+
+/-- the code as it is, on this input, under the overlapping schedule (run 0 builds its list, run 1
+    builds its list, then both fire a callback): each run's callbacks go to common ++ its own handler -/
+example :
+    Cb.seenAll repoCbFacts cbHazardHeap cbHazardProg [0, 0, 0, 1, 1, 1, 0, 1]
+      = [some [⟨1, none⟩, ⟨2, none⟩, ⟨10, none⟩], some [⟨1, none⟩, ⟨2, none⟩, ⟨20, none⟩]] := by decide
+
+/-- **Handler list aliased with the first option's slice (negation witness).**  If
+    `initGraphCallbacks` took the first option's handler slice as it is
+    (`graphCollectCopies = false`) the second option's handlers are appended into the spare
+    capacity of the caller's array, and – no manager in the context – that window IS the run's
+    handler list: after run 1 has built its list, run 0's later callbacks go to run 1's own
+    handler (20 instead of 10) and the caller's array has been written; alone (or with the
+    copying collection) run 0's callbacks go to its own handler. -/
+theorem aliased_first_handler_list_interferes :
+    Cb.seenAll ⟨false, true, true⟩ cbHazardHeap cbHazardProg [0, 0, 0, 1, 1, 1, 0, 1]
+      = [some [⟨1, none⟩, ⟨2, none⟩, ⟨20, none⟩], some [⟨1, none⟩, ⟨2, none⟩, ⟨20, none⟩]]
+    ∧ Cb.seenAll ⟨false, true, true⟩ cbHazardHeap cbHazardProg [0, 0, 0, 0]
+      = [some [⟨1, none⟩, ⟨2, none⟩, ⟨10, none⟩], none]
+    ∧ Cb.seenAll ⟨true, true, true⟩ cbHazardHeap cbHazardProg [0, 0, 0, 1, 1, 1, 0, 1]
+      = [some [⟨1, none⟩, ⟨2, none⟩, ⟨10, none⟩], some [⟨1, none⟩, ⟨2, none⟩, ⟨20, none⟩]]
+    ∧ (Cb.exec ⟨false, true, true⟩ cbHazardProg [0, 0, 0, 1, 1, 1, 0, 1]
+        (Cb.St.init cbHazardHeap cbHazardProg)).heap[0]? ≠ cbHazardHeap[0]? := by
+  decide
+
+/-- the same two calls with both options designated to node `w` of a graph called without any
+    graph-wide handler: the list is collected by `initNodeCallbacks` of `w` -/
+def cbNodeHazardProg : List Cb.Thread :=
+  Cb.progOf
+    [⟨C10.Slice.nil, [⟨true, ["w"], ⟨0, 0, 2, 4⟩⟩, ⟨true, ["w"], ⟨1, 0, 1, 1⟩⟩]⟩,
+     ⟨C10.Slice.nil, [⟨true, ["w"], ⟨0, 0, 2, 4⟩⟩, ⟨true, ["w"], ⟨2, 0, 1, 1⟩⟩]⟩]
+    [(0, ["w"]), (1, ["w"])]
+
+/-- **The same hazard one level down (negation witness, `nodeCollectCopies = false`).** -/
+theorem aliased_node_handler_list_interferes :
+    Cb.seenAll ⟨true, false, true⟩ cbHazardHeap cbNodeHazardProg [0, 0, 0, 0, 1, 1, 1, 1, 0, 1]
+      = [some [⟨1, none⟩, ⟨2, none⟩, ⟨20, none⟩], some [⟨1, none⟩, ⟨2, none⟩, ⟨20, none⟩]]
+    ∧ Cb.seenAll ⟨true, true, true⟩ cbHazardHeap cbNodeHazardProg [0, 0, 0, 0, 1, 1, 1, 1, 0, 1]
+      = [some [⟨1, none⟩, ⟨2, none⟩, ⟨10, none⟩], some [⟨1, none⟩, ⟨2, none⟩, ⟨20, none⟩]] := by
+  decide
+
+/-- two calls whose contexts derive from ONE parent context whose handler slice has spare capacity
+    (3 handlers in an array of 4), each with one graph-wide handler of its own -/
+def cbParentHeap : C10.Heap :=
+  [[⟨7, none⟩, ⟨8, none⟩, ⟨9, none⟩, default], [⟨10, none⟩], [⟨20, none⟩]]
+def cbParentProg : List Cb.Thread :=
+  Cb.progOf
+    [⟨⟨0, 0, 3, 4⟩, [⟨false, [], ⟨1, 0, 1, 1⟩⟩]⟩, ⟨⟨0, 0, 3, 4⟩, [⟨false, [], ⟨2, 0, 1, 1⟩⟩]⟩]
+    [(0, []), (1, [])]
+
+/-- **In-place append to the inherited list (negation witness, `installCopies = false`; the
+    defect repaired by commit dcdede6).** -/
+theorem inplace_append_to_parent_handlers_interferes :
+    Cb.seenAll ⟨true, true, false⟩ cbParentHeap cbParentProg [0, 0, 1, 1, 0, 1]
+      = [some [⟨7, none⟩, ⟨8, none⟩, ⟨9, none⟩, ⟨20, none⟩], some [⟨7, none⟩, ⟨8, none⟩, ⟨9, none⟩, ⟨20, none⟩]]
+    ∧ Cb.seenAll ⟨true, true, true⟩ cbParentHeap cbParentProg [0, 0, 1, 1, 0, 1]
+      = [some [⟨7, none⟩, ⟨8, none⟩, ⟨9, none⟩, ⟨10, none⟩], some [⟨7, none⟩, ⟨8, none⟩, ⟨9, none⟩, ⟨20, none⟩]]
+    ∧ (Cb.exec ⟨true, true, false⟩ cbParentProg [0, 0, 1, 1, 0, 1]
+        (Cb.St.init cbParentHeap cbParentProg)).heap[0]? ≠ cbParentHeap[0]? := by
+  decide
+
+/-- without spare capacity (`len = cap`) the aliased list is harmless: `append` reallocates -/
+example :
+    Cb.seenAll ⟨false, true, true⟩ [[⟨1, none⟩, ⟨2, none⟩], [⟨10, none⟩], [⟨20, none⟩]]
+      [⟨C10.Slice.nil, [.collect true ⟨0, 0, 2, 2⟩, .collect true ⟨1, 0, 1, 1⟩, .install]⟩,
+       ⟨C10.Slice.nil, [.collect true ⟨0, 0, 2, 2⟩, .collect true ⟨2, 0, 1, 1⟩, .install]⟩]
+      [0, 0, 0, 1, 1, 1, 0, 1]
+      = [some [⟨1, none⟩, ⟨2, none⟩, ⟨10, none⟩], some [⟨1, none⟩, ⟨2, none⟩, ⟨20, none⟩]] := by decide
+
+end CallbackHandlers
+
+/-! ## many runs in flight at once
+
+"May be invoked from any number of goroutines at once … runs do not share channels."  What a run
+needs in order to make progress must not be something the runs of the process compete for. -/
+
+section InFlight
+
+/-- **no_shared_sync_on_run_path.** No package-level variable of compose / flow/agent/… that is a
+    channel, a lock, a condition, a wait group or a semaphore is referenced by a function of its
+    package: nothing a run waits on is shared with the other runs of the process. -/
+theorem no_shared_sync_on_run_path : FactsC09.runPathSharedSync = [] := by decide
+
+theorem facts_match_inflight : FactsC09.runPathSharedSync = Expected.C09.runPathSharedSync := by decide
+
+/-- is there a process-wide synchronisation object on the run path of the code as it is now -/
+def repoSharedSync : Bool := !FactsC09.runPathSharedSync.isEmpty
+
+theorem repo_shared_sync : repoSharedSync = false := by decide
+
+/-- **No number of concurrent runs is ever stuck** – for the code as it is (`runPathSharedSync`
+    from /repo), ANY array of calls (any number of runs, any number of tool calls per message,
+    tools that delegate to an inner tools node with any number of calls), whatever capacity a
+    resource would have, and EVERY interleaving of starts and returns, with every outer tool call
+    held at a barrier until every outer call of every run is in flight: the state reached is not
+    stuck – either every call has returned or some call can move. -/
+theorem no_run_is_ever_stuck (cap : Nat) (cs : Array Flight.Call) (wf : Flight.WF cs) (sched : List Nat) :
+    Flight.stuck repoSharedSync cap cs
+      (Flight.exec repoSharedSync cap cs sched (Flight.St.init cs.size)) = false := by
+  rw [repo_shared_sync]
+  have inv := Flight.inv_exec wf false cap sched _ (Flight.inv_init cs)
+  unfold Flight.stuck
+  rcases Flight.progress wf cap inv with h | ⟨c, hc, he⟩
+  · simp [h]
+  · have : ((List.range cs.size).all fun c =>
+        !Flight.enabled false cap cs (Flight.exec false cap cs sched (Flight.St.init cs.size)) c) = false := by
+      rw [Bool.eq_false_iff]
+      intro hall
+      rw [Flight.all_range] at hall
+      have := hall c hc
+      rw [he] at this
+      cases this
+    rw [this]; simp
+
+/-- **Every effective step is progress and there is only so much to do**: an enabled step moves one
+    call one phase forward (`work` + 1), and `work ≤ 2·n`; so every execution that keeps choosing
+    calls that can move is at most `2·n` steps long (whatever is shared). -/
+theorem every_effective_step_is_progress (shared : Bool) (cap : Nat) (cs : Array Flight.Call)
+    (st : Flight.St) (hsz : st.ph.size = cs.size) (c : Nat)
+    (he : Flight.enabled shared cap cs st c = true) :
+    Flight.work cs (Flight.step shared cap cs st c) = Flight.work cs st + 1
+    ∧ Flight.work cs (Flight.step shared cap cs st c) ≤ 2 * cs.size :=
+  ⟨Flight.work_step shared cap hsz c he, Flight.work_le cs _⟩
+
+/-- **All runs return, however many they are and wherever the interleaving has taken them**: from
+    the state reached by ANY schedule, letting the calls that can move, move (`drain`: the first
+    enabled call, `2·n` times) brings every call of every run back.  With
+    `no_run_is_ever_stuck`: no reachable state is doomed. -/
+theorem every_reachable_state_completes (cap : Nat) (cs : Array Flight.Call) (wf : Flight.WF cs)
+    (sched : List Nat) :
+    Flight.allDone cs
+      (Flight.drain repoSharedSync cap cs (2 * cs.size)
+        (Flight.exec repoSharedSync cap cs sched (Flight.St.init cs.size))) = true := by
+  rw [repo_shared_sync]
+  exact Flight.drain_completes wf cap _ _ (Flight.inv_exec wf false cap sched _ (Flight.inv_init cs)) (by omega)
+
+/-- three runs, each a message with two plain tool calls -/
+def flightPlain : Array Flight.Call := Flight.build [⟨"a", 2, 0⟩, ⟨"b", 2, 0⟩, ⟨"c", 2, 0⟩]
+/-- two runs, each a message with two calls of a tool that delegates to an inner tools node with
+    two leaf calls (agent-as-tool) -/
+def flightNested : Array Flight.Call := Flight.build [⟨"a", 2, 2⟩, ⟨"b", 2, 2⟩]
+
+/-- the hypotheses of the theorems above are satisfiable by the arrays the harness generates -/
+example : Flight.WF flightPlain ∧ Flight.WF flightNested :=
+  ⟨Flight.wf_of_wfb (by decide), Flight.wf_of_wfb (by decide)⟩
+
+example : flightNested.size = 12 ∧ flightNested[3]? = some ⟨none, true⟩ ∧ flightNested[5]? = some ⟨some 3, true⟩ := by
+  decide
+
+set_option maxRecDepth 8000 in
+/-- **A process-wide pool of slots couples the liveness of unrelated runs (negation witness).**
+    `shared = true`, 2 slots for the extra tool calls of the whole process.  Three runs with two
+    plain calls each: the extra calls of runs `a` and `b` take both slots, the extra call of run `c`
+    cannot start, so the barrier "all six calls in flight" never opens – stuck, although each run
+    alone completes and, with nothing shared, the same schedule is not stuck and completes.
+    Nested: two runs whose outer extra calls hold both slots while they wait for their inner
+    activations, whose extra calls need a slot – a deadlock of runs that do not depend on each
+    other at all. -/
+theorem process_wide_slots_couple_runs :
+    Flight.stuck true 2 flightPlain
+      (Flight.exec true 2 flightPlain [1, 3, 5, 0, 2, 4] (Flight.St.init flightPlain.size)) = true
+    ∧ Flight.stuck false 2 flightPlain
+      (Flight.exec false 2 flightPlain [1, 3, 5, 0, 2, 4] (Flight.St.init flightPlain.size)) = false
+    ∧ Flight.allDone (Flight.build [⟨"a", 2, 0⟩])
+      (Flight.exec true 2 (Flight.build [⟨"a", 2, 0⟩]) [1, 0, 1, 0] (Flight.St.init 2)) = true
+    ∧ Flight.stuck true 2 flightNested
+      (Flight.exec true 2 flightNested [0, 3, 6, 9, 1, 4, 7, 10, 1, 4, 7, 10, 2, 5, 8, 11]
+        (Flight.St.init flightNested.size)) = true
+    ∧ Flight.allDone flightNested
+      (Flight.drain false 2 flightNested 24
+        (Flight.exec false 2 flightNested [0, 3, 6, 9, 1, 4, 7, 10, 1, 4, 7, 10, 2, 5, 8, 11]
+          (Flight.St.init flightNested.size))) = true := by
+  decide
+
+end InFlight
 
 /-! ## run errors (per-run values)
 
